@@ -113,6 +113,9 @@ Lemma rebinding_seed_takes_upstream_dtype :
   exists data upstream b', final_grad false true data upstream [] = Some b' /\ fst b' <> fst data.
 Proof. exists (F32, [2]), (F64, [2]), (F64, [2]). split; [reflexivity|discriminate]. Qed.
 
+Lemma forallb_In {A} (f : A -> bool) (l : list A) : forallb f l = true -> forall x, In x l -> f x = true.
+Proof. intro H. apply forallb_forall. exact H. Qed.
+
 (* ---- facts about the generated tables (finite: the ops present in the source) -------------------------------------- *)
 Definition fdts : list dtype := [F32; F64].
 
@@ -164,5 +167,137 @@ Definition wrap_ok (d : dtype) (w : absval) : bool :=
 Lemma wrap_ok_all : forallb (fun d => forallb (wrap_ok d) py_scalars) fl3 = true.
 Proof. vm_compute. reflexivity. Qed.
 
-Lemma forallb_In {A} (f : A -> bool) (l : list A) : forallb f l = true -> forall x, In x l -> f x = true.
-Proof. intro H. apply forallb_forall. exact H. Qed.
+(* ---- layers with state: the invariant over histories ------------------------------------------------------------ *)
+Lemma dtype_eqb_eq : forall a b, dtype_eqb a b = true -> a = b.
+Proof. destruct a, b; simpl; intro H; try reflexivity; discriminate H. Qed.
+Lemma kind_eqb_eq : forall a b, kind_eqb a b = true -> a = b.
+Proof. destruct a, b; simpl; intro H; try reflexivity; discriminate H. Qed.
+Lemma obool_eqb_eq : forall a b, obool_eqb a b = true -> a = b.
+Proof.
+  destruct a as [x|], b as [y|]; simpl; intro H; try reflexivity; try discriminate H.
+  apply Bool.eqb_prop in H. subst. reflexivity.
+Qed.
+
+Lemma absval_eqb_eq : forall a b, absval_eqb a b = true -> a = b.
+Proof.
+  fix IH 1. intros a b. destruct a; destruct b; simpl; intro H; try reflexivity; try discriminate H.
+  - apply andb_true_iff in H. destruct H as [H1 H2]. apply dtype_eqb_eq in H1. apply kind_eqb_eq in H2. subst. reflexivity.
+  - apply obool_eqb_eq in H. subst. reflexivity.
+  - destruct (string_dec s s0); [subst; reflexivity | discriminate H].
+  - f_equal. revert l0 H.
+    refine ((fix go (l : list absval) : forall l0,
+               (fix go0 (l l' : list absval) : bool :=
+                  match l, l' with
+                  | [], [] => true
+                  | x :: t, y :: t' => absval_eqb x y && go0 t t'
+                  | _, _ => false
+                  end) l l0 = true -> l = l0 :=
+               match l with
+               | [] => fun l0 => match l0 with [] => fun _ => eq_refl | _ :: _ => fun H => _ end
+               | x :: t => fun l0 => match l0 with [] => fun H => _ | y :: t' => fun H => _ end
+               end) l).
+    + discriminate H.
+    + discriminate H.
+    + apply andb_true_iff in H. destruct H as [H1 H2]. apply IH in H1. apply go in H2. subst. reflexivity.
+Qed.
+
+Lemma vmem_In : forall x l, vmem x l = true -> In x l.
+Proof.
+  intros x l H. unfold vmem in H. apply existsb_exists in H. destruct H as [y [Hy He]].
+  apply absval_eqb_eq in He. subst. exact Hy.
+Qed.
+
+Lemma In_vunion : forall a b y, In y (vunion a b) -> In y a \/ In y b.
+Proof.
+  induction a as [|x t IH]; intros b y H; simpl in H.
+  - right. exact H.
+  - destruct (vmem x b || vmem x t).
+    + apply IH in H. destruct H; [left; right; assumption | right; assumption].
+    + destruct H as [H|H]; [left; left; assumption|]. apply IH in H. destruct H; [left; right; assumption | right; assumption].
+Qed.
+
+Lemma In_vdedup : forall l y, In y (vdedup l) -> In y l.
+Proof.
+  induction l as [|x t IH]; intros y H; simpl in H; [exact H|].
+  destruct (vmem x t); [right; apply IH; exact H|].
+  destruct H as [H|H]; [left; exact H | right; apply IH; exact H].
+Qed.
+
+Lemma In_vflat : forall f l y, In y (vflat f l) -> exists x, In x l /\ In y (f x).
+Proof.
+  intros f l. induction l as [|x t IH]; intros y H; simpl in H; [contradiction|].
+  unfold vflat in H. simpl in H. apply In_vunion in H. destruct H as [H|H].
+  - exists x. split; [left; reflexivity | exact H].
+  - apply IH in H. destruct H as [x' [Hx Hy]]. exists x'. split; [right; exact Hx | exact Hy].
+Qed.
+
+Lemma In_lift1 : forall f s y, In y (lift1 f s) -> exists v, In v s /\ bound v = true /\ y = f v.
+Proof.
+  intros f s y H. unfold lift1 in H. apply In_vdedup in H. apply in_map_iff in H. destruct H as [v [Hv Hin]].
+  unfold nounb in Hin. apply filter_In in Hin. destruct Hin as [Hin Hb]. exists v. repeat split; auto.
+Qed.
+
+Lemma In_nounb : forall s y, In y (nounb s) -> In y s /\ bound y = true.
+Proof. intros s y H. unfold nounb in H. apply filter_In in H. exact H. Qed.
+
+(* one step from states inside a closed set R *)
+Lemma closed_step :
+  forall c r d R, closed_ok c r d R = true ->
+  forall S tr, (forall s, In s S -> In s R) ->
+    (forall o, In o (sl_outs c r (Np d KArray) tr S) -> out_is d o = true) /\
+    (forall s', In s' (sl_next c r (Np d KArray) tr S) -> In s' R).
+Proof.
+  intros c r d R Hc S tr HS.
+  assert (Hres : forall st res, In st S -> In res (sl_step1 c r (Np d KArray) tr st) -> bound res = true ->
+                 In (res_state res) R /\ out_is d (res_out res) = true).
+  { intros st res Hst Hres Hb. unfold closed_ok in Hc.
+    pose proof (forallb_In _ _ Hc st (HS st Hst)) as H1. cbv beta in H1.
+    assert (Htr : In tr [true; false]) by (destruct tr; simpl; auto).
+    pose proof (forallb_In _ _ H1 tr Htr) as H2. cbv beta in H2.
+    pose proof (forallb_In _ _ H2 res Hres) as H3. cbv beta in H3.
+    rewrite Hb in H3. simpl in H3. apply andb_true_iff in H3. destruct H3 as [H3 H4].
+    split; [apply vmem_In; exact H3 | exact H4]. }
+  split.
+  - intros o Ho. unfold sl_outs in Ho. apply In_vflat in Ho. destruct Ho as [st [Hst Ho]].
+    apply In_lift1 in Ho. destruct Ho as [res [Hr [Hb ->]]]. exact (proj2 (Hres st res Hst Hr Hb)).
+  - intros s' Hs'. unfold sl_next in Hs'. apply In_vflat in Hs'. destruct Hs' as [st [Hst Hs']].
+    apply In_lift1 in Hs'. destruct Hs' as [res [Hr [Hb ->]]]. exact (proj1 (Hres st res Hst Hr Hb)).
+Qed.
+
+Lemma out_is_all_dtype : forall d s, (forall o, In o s -> out_is d o = true) -> all_dtype d s = true.
+Proof.
+  intros d s H. unfold all_dtype. apply forallb_forall. intros v Hv. specialize (H v Hv).
+  unfold out_is in H. destruct v; try discriminate H. exact H.
+Qed.
+
+Lemma history_invariant :
+  forall c r d R, closed_ok c r d R = true -> forallb (good_state d) R = true ->
+  forall (h : list bool) S, (forall s, In s S -> In s R) ->
+    let res := sl_run c r (map (fun tr => (tr, Np d KArray)) h) S in
+    forallb (all_dtype d) (fst res) = true /\ forallb (good_state d) (snd res) = true.
+Proof.
+  intros c r d R Hc Hg h. induction h as [|tr t IH]; intros S HS; simpl.
+  - split; [reflexivity|]. apply forallb_forall. intros s Hs. exact (forallb_In _ _ Hg s (HS s Hs)).
+  - destruct (closed_step c r d R Hc S tr HS) as [Ho Hn].
+    specialize (IH (sl_next c r (Np d KArray) tr S) Hn). simpl in IH. destruct IH as [IH1 IH2].
+    split; [|exact IH2]. rewrite (out_is_all_dtype d _ Ho). simpl. exact IH1.
+Qed.
+
+Definition sl_row_ok2 (r : slrow) : bool := sl_row_ok gen_cfg r F32 && sl_row_ok gen_cfg r F64.
+
+Lemma sl_rows_ok_true : forallb sl_row_ok2 stateful_rows = true.
+Proof. vm_compute. reflexivity. Qed.
+
+Lemma sl_row_history :
+  forall r d, sl_row_ok gen_cfg r d = true ->
+    forallb (good_state d) (sl_init_states gen_cfg d d r) = true ->
+    forall h : list bool,
+      let res := sl_run gen_cfg r (map (fun tr => (tr, Np d KArray)) h) (sl_init_states gen_cfg d d r) in
+      forallb (all_dtype d) (fst res) = true /\ forallb (good_state d) (snd res) = true.
+Proof.
+  intros r d Hok Hg0 h. unfold sl_row_ok in Hok. rewrite Hg0 in Hok.
+  apply andb_true_iff in Hok. destruct Hok as [Hok Hsub]. apply andb_true_iff in Hok. destruct Hok as [Hc Hg].
+  apply (history_invariant gen_cfg r d _ Hc Hg h).
+  intros s Hs. apply vmem_In. unfold vsubset in Hsub. exact (forallb_In _ _ Hsub s Hs).
+Qed.
+
